@@ -1,0 +1,18 @@
+//go:build !verif
+// +build !verif
+
+package tengo
+
+// Verification hooks are compiled out unless the "verif" build tag is set:
+// verifOn is a false constant, so every guarded branch is dead code.
+const verifOn = false
+
+type verifVM struct{}
+
+type verifCompiler struct{}
+
+func verifNewVM(*VM) {}
+
+func verifProbe(*VM) {}
+
+func (c *Compiler) verifNoDCE() bool { return false }
